@@ -113,6 +113,19 @@ def _src_vars(w, acc):
         _src_vars(w[1], acc)
         acc.update(w[2].t)
         _src_vars(w[3], acc)
+    elif w[0] == "patch":
+        _src_vars(w[1], acc)
+        acc.update(w[2].t)
+        acc.update(w[3].t)
+        d = w[4]
+        if d[0] == "be" and isinstance(d[2], Lin):
+            acc.update(d[2].t)
+        elif d[0] == "src":
+            _src_vars(d[1], acc)
+    elif w[0] == "sub":
+        _src_vars(w[1], acc)
+        acc.update(w[2].t)
+        acc.update(w[3].t)
     else:
         acc.update(w[1].t)
 
@@ -122,7 +135,32 @@ def src_rename(w, f):
         return None
     if w[0] == "cat":
         return ("cat", src_rename(w[1], f), w[2].rename(f), src_rename(w[3], f))
+    if w[0] == "patch":
+        d = w[4]
+        if d[0] == "be":
+            d = ("be", d[1], d[2].rename(f) if isinstance(d[2], Lin) else d[2])
+        elif d[0] == "src":
+            d = ("src", src_rename(d[1], f))
+        return ("patch", src_rename(w[1], f), w[2].rename(f), w[3].rename(f), d)
+    if w[0] == "sub":
+        return ("sub", src_rename(w[1], f), w[2].rename(f), w[3].rename(f))
     return (w[0], w[1].rename(f))
+
+
+def src_atom(w):
+    """is this content description a plain window (id, offset) of an identified content"""
+    return w is not None and w[0] not in ("cat", "patch", "sub")
+
+
+def src_window(w, total, lo):
+    """the content of the part starting at `lo` of a sequence of length `total` described by w"""
+    if w is None:
+        return None
+    if src_atom(w):
+        return (w[0], w[1] + lo)
+    if w[0] == "sub":
+        return ("sub", w[1], w[2], w[3] + lo)
+    return ("sub", w, total, lo)
 
 
 class Empty(V):
@@ -369,6 +407,26 @@ def value_vars(v):
     return acc
 
 
+def is_listed(x):
+    """an explicit element list (as opposed to one value summarising every element)"""
+    return isinstance(x, Struct) and x.tag == "elems"
+
+
+def summ(x):
+    """one value summarising every element, whether the elements are listed or already summarised"""
+    if not is_listed(x):
+        return x
+    vals = [x.f[i] for i in sorted(x.f)]
+    if not vals:
+        return EMPTY
+    acc = vals[0]
+    for v in vals[1:]:
+        acc = weak_join(acc, v)
+        if acc is None:
+            return None
+    return acc
+
+
 def weak_join(a, b):
     """join of two values without phi variables (used for element summaries): numbers that differ become unknown"""
     if a is None or b is None:
@@ -381,6 +439,10 @@ def weak_join(a, b):
         return a
     if isinstance(a, (Ref, RefAny)) and isinstance(b, (Ref, RefAny)):
         return RefAny([a, b])
+    if is_listed(a) or is_listed(b):
+        if is_listed(a) and is_listed(b) and set(a.f) == set(b.f):
+            return Struct({i: weak_join(a.f[i], b.f[i]) or TOP for i in a.f}, "elems")
+        return None         # lists of different shape: the elements are unknown
     if isinstance(a, Struct) and isinstance(b, Struct) and a.tag == b.tag:
         return Struct({i: weak_join(a.f[i], b.f[i]) or TOP for i in set(a.f) & set(b.f)}, a.tag)
     if isinstance(a, Enum) and isinstance(b, Enum) and a.adt == b.adt:
